@@ -115,7 +115,7 @@ func runCheck(o *checkOpts) *checkResult {
 			}
 			continue
 		}
-		if c.Flags["trusted"] {
+		if c.Flags["trusted"] || c.Flags["assumed"] {
 			continue
 		}
 		for _, p := range c.Props {
